@@ -749,7 +749,7 @@ class FamTimeFixed(Fam):
             return {'treatment': rng.choice(['all', 'none', 'all', 'none', "g['W0'] > 0", "(g['C0']==1) | (g['W1']<0)"]),
                     'predict_missing': rng.random() < 0.8}
         a = dict(rng.choice(PLANS))
-        a.update({'method': 'fit_stochastic', 'seed': rng.randrange(10 ** 6), 'samples': rng.choice([5, 10])})
+        a.update({'method': 'fit_stochastic', 'seed': rng.choice([0, 0, 1, rng.randrange(10 ** 6), 2 ** 32 - 1]), 'samples': rng.choice([5, 10])})   # boundary seeds are valid seeds
         return a
 
     def do_fit(self, o, a, inp):
@@ -992,7 +992,7 @@ class FamStochTMLE(Fam):
 
     def gen_fit(self, rng, cfg):
         a = dict(rng.choice(PLANS))
-        a.update({'samples': rng.choice([5, 12]), 'seed': rng.randrange(10 ** 6)})
+        a.update({'samples': rng.choice([5, 12]), 'seed': rng.choice([0, 0, 1, rng.randrange(10 ** 6), 2 ** 32 - 1])})
         return a
 
     def do_fit(self, o, a, inp):
